@@ -61,3 +61,15 @@ Fixpoint calls {A} (m : act A) (st : store) : nat :=
 (* requests pending in a store: queued ones plus listed dispatched ones *)
 Definition pending (st : store) : nat :=
   N.to_nat (snd (eff st) - fst (eff st)) + length (di_of st).
+
+(* every request fits into the empty queue (a request that does not is never accepted) *)
+Definition fits (c : cfg) : Prop := forall r, (sizeof c r <= capacity c)%Z.
+
+(* k clean drain incarnations: n times (Read; complete it with success), no death *)
+Definition drains (n k : nat) : history := repeat (drain_script n, None) k.
+
+Definition nothing_durable (st : store) : Prop := forall r, ~ durable st r.
+
+(* the indexes handed out by the Reads of one incarnation, in order *)
+Definition read_idx (obs : list (res * Z)) : list N :=
+  flat_map (fun x => match fst x with RRead i _ => [i] | _ => [] end) obs.
